@@ -529,3 +529,18 @@ func DiffDumps(a, b map[string]string) []string {
 	sort.Strings(out)
 	return out
 }
+
+// cloneManifestWithName copies a compiled contract's manifest under another name (the
+// deployment procedure does the same to deploy one Alphabet contract per member).
+func cloneManifestWithName(c *Compiled, name string) *manifest.Manifest {
+	b, err := json.Marshal(c.Manifest)
+	if err != nil {
+		panic(err)
+	}
+	m := new(manifest.Manifest)
+	if err := json.Unmarshal(b, m); err != nil {
+		panic(err)
+	}
+	m.Name = name
+	return m
+}
